@@ -395,14 +395,25 @@ fn check_object<W: AsRef<[u64]>>(ck: &mut Ck<'_, '_>, id: usize, fs: succinctly:
         ck.fail("nav:fields:iterator", json!({"node": id}));
     }
     // find / find_cursor: every distinct decoded name + absent names; expected = LAST occurrence
-    let mut names: Vec<&str> = pairs.iter().map(|&(k, _)| doc.key_name(k)).collect();
+    let mut names: Vec<String> = pairs.iter().map(|&(k, _)| doc.key_name(k).to_string()).collect();
     if ck.big && names.len() > 64 {
         names.truncate(32);
     }
-    names.extend(["zz", "", "A", "a\u{0}"]);
+    // ... plus the *raw source spelling* (between the quotes) of every key of this object: a name that is
+    // byte-identical to an escaped key's spelling (`\u0061`, `a\"b`) names a different key (or none) — a lookup
+    // that compares raw bytes instead of decoded text answers it wrongly.
+    for &(k, _) in pairs.iter().take(64) {
+        let n = &doc.nodes[k];
+        if n.end >= n.start + 2 {
+            if let Ok(raw) = std::str::from_utf8(&doc.text[n.start + 1..n.end - 1]) {
+                names.push(raw.to_string());
+            }
+        }
+    }
+    names.extend(["zz", "", "A", "a\u{0}", "\\u0061", "\\u0041", "a\\\"b", "\\n"].map(String::from));
     names.sort_unstable();
     names.dedup();
-    for name in names {
+    for name in names.iter().map(|s| s.as_str()) {
         ck.rep.trans(2);
         let occ: Vec<usize> = pairs.iter().filter(|&&(k, _)| doc.key_name(k) == name).map(|&(_, v)| v).collect();
         let exp = occ.last().copied();
